@@ -6,38 +6,46 @@ Require Import V.C36.Model V.C36.Proofs.
 Open Scope Z_scope.
 
 Definition pinv (dirty : bool) (c : pconn) : Prop :=
-  concat (pdel c) ++ pbuf c = pgot c /\ (dirty = false -> pbuf c = []) /\ (palive c = false -> pbuf c = []).
+  concat (pdel c) ++ pbuf c = pgot c /\ (dirty = false -> pbuf c = []) /\ (palive c = false -> pbuf c = []) /\
+  (pacc c = true -> palive c = true -> prem c = true) /\ (pacc c = false -> pbuf c = []).
 
-Lemma pinv_connects c : pinv false c -> pinv false (p_connects c).
+Lemma pinv_connects arr kc : pinv false (snd kc) -> pinv false (p_connects (snd (p_accept arr kc))).
 Proof.
-  unfold pinv, p_connects. intros (H1 & H2 & H3). destruct (palive c && pcut c); cbn; auto.
+  unfold pinv, p_connects, p_accept. intros (H1 & H2 & H3 & H4 & H5). specialize (H2 eq_refl).
+  destruct (existsb (Z.eqb (fst kc)) arr && negb (pacc (snd kc))); cbn [snd pacc palive pcut pbuf pgot pdel prem andb].
+  - destruct (palive (snd kc)) eqn:Eb; cbv iota.
+    + destruct (pcut (snd kc)); cbn; repeat split; auto; intros; congruence.
+    + cbn. repeat split; auto; intros; congruence.
+  - destruct (pacc (snd kc)) eqn:Ea, (palive (snd kc)) eqn:Eb; cbn [andb]; cbv iota;
+      try (repeat split; auto; intros; congruence).
+    destruct (pcut (snd kc)); cbn; repeat split; auto; intros; congruence.
 Qed.
 
 Lemma pinv_recv dirty c orc : pinv dirty c -> pinv true (p_recv c orc).
 Proof.
-  unfold pinv, p_recv. intros (H1 & H2 & H3).
-  destruct (palive c) eqn:Ea; cbn [andb].
-  - destruct (negb (pcut c)).
-    + destruct (conn_rx orc (pbuf c)) as [[b cu] rest] eqn:E. cbn.
-      apply conn_rx_spec in E. destruct E as (used & -> & ->). rewrite consumed_app.
-      repeat split; try (intros; discriminate). rewrite <- H1, <- !app_assoc. reflexivity.
-    + cbv iota. repeat split; auto; intros; congruence.
-  - cbv iota. repeat split; auto; intros; congruence.
+  unfold pinv, p_recv. intros (H1 & H2 & H3 & H4 & H5).
+  destruct (pacc c) eqn:Ec, (palive c) eqn:Ea; cbn [andb]; cbv iota;
+    try (repeat split; auto; intros; congruence).
+  destruct (negb (pcut c)); cbv iota; [|repeat split; auto; intros; congruence].
+  destruct (conn_rx orc (pbuf c)) as [[b cu] rest] eqn:E. cbn.
+  apply conn_rx_spec in E. destruct E as (used & -> & ->). rewrite consumed_app.
+  repeat split; try (intros; discriminate); auto. rewrite <- H1, <- !app_assoc. reflexivity.
 Qed.
 
 Lemma pinv_rx dirty c : pinv dirty c -> pinv false (p_rx c).
 Proof.
-  unfold pinv, p_rx. intros (H1 & H2 & H3). destruct (palive c) eqn:Ea.
-  - destruct (pbuf c) as [|x b] eqn:Eb; cbn.
-    + rewrite Eb. repeat split; auto.
-    + rewrite concat_app. cbn. rewrite !app_nil_r. repeat split; auto.
-  - repeat split; auto.
+  unfold pinv, p_rx. intros (H1 & H2 & H3 & H4 & H5).
+  destruct (pacc c) eqn:Ec, (palive c) eqn:Ea; cbn [andb]; cbv iota;
+    try (repeat split; auto; intros; congruence).
+  destruct (pbuf c) as [|x b] eqn:Eb; cbn.
+  - rewrite Eb. repeat split; auto.
+  - rewrite (H4 eq_refl eq_refl). rewrite concat_app. cbn. rewrite !app_nil_r. repeat split; auto.
 Qed.
 
 Lemma pinv_weaken c : pinv false c -> forall d, pinv d c.
-Proof. unfold pinv. intros (H1 & H2 & H3) d. repeat split; auto. Qed.
+Proof. unfold pinv. intros (H1 & H2 & H3 & H4 & H5) d. repeat split; auto. Qed.
 
-Lemma p_order_inv orcs order : forall dirty dirty' cs,
+Lemma p_order_inv (orcs : ppass) order : forall dirty dirty' cs,
   order_check order dirty = Some dirty' ->
   Forall (fun kc => pinv dirty (snd kc)) cs ->
   Forall (fun kc : Z * pconn => pinv dirty' (snd kc)) (fold_left (p_step orcs) order cs).
@@ -46,7 +54,7 @@ Proof.
   - inversion Hc; subst. exact H.
   - destruct st.
     + destruct dirty; [discriminate|]. apply (IH false dirty'); auto.
-      apply Forall_map. eapply Forall_impl; [|exact H]. cbn. intros kc. apply pinv_connects.
+      apply Forall_map. apply Forall_map. eapply Forall_impl; [|exact H]. cbn. intros kc. apply pinv_connects.
     + apply (IH true dirty'); auto.
       apply Forall_map. eapply Forall_impl; [|exact H]. cbn. intros kc. apply pinv_recv.
     + apply (IH false dirty'); auto.
@@ -77,6 +85,7 @@ Qed.
 
 (* the unsafe order loses bytes: receive, then serviceConnects, then parse *)
 Lemma swapped_order_loses :
-  let cs := p_run [StRecv; StConnects; StRx; StTx; StSend] [5001] [[(5001, [Data [1;2;3]; Closed])]] in
-  cs = [(5001, mkP false [1;2;3] true [1;2;3] [])].
+  let cs := p_run [StRecv; StConnects; StRx; StTx; StSend] [5001]
+                  [([5001], []); ([], [(5001, [Data [1;2;3]; Closed])])] in
+  cs = [(5001, mkP false [1;2;3] true [1;2;3] [] true true)].
 Proof. vm_compute. reflexivity. Qed.
